@@ -167,6 +167,17 @@ class IdxArr:
         return f"<idx {s.name}:{s.size}>"
 
 
+class NTuple(tuple):
+    """instance of a typing.NamedTuple subclass of the analysed program: a tuple whose entries are also attributes"""
+    _fields = ()
+    _cls = "?"
+
+    def __new__(cls, values, fields, clsname):
+        o = super().__new__(cls, values)
+        o._fields, o._cls = tuple(fields), clsname
+        return o
+
+
 class IdxMask:
     """elementwise sign test of a generic index list: sense 'neg' (idx < 0) or 'nonneg' (idx >= 0)"""
 
@@ -243,13 +254,68 @@ class Interp:
             s.call_fn(r[1], prog.cls(r[0]).mod, r[0], o, [], {})
         return o
 
+    def class_const(s, clsname, name):
+        """class-level constant NAME = <expr> of the class or one of its bases: (value,) or None"""
+        for c in s.prog.mro(clsname):
+            ci = s.prog.classes.get(c)
+            if ci is not None and name in ci.consts:
+                cache = s.flags.setdefault("_class_consts", {})
+                if (c, name) not in cache:
+                    cache[(c, name)] = s.ev(ci.consts[name], Env(mod=ci.mod, cls=c, fname="<class body>"))
+                return (cache[(c, name)],)
+        return None
+
+    def construct_plain(s, clsname, ci, args, kw):
+        """instances of classes that are not (project-)dataclasses: typing.NamedTuple records and plain classes with __init__"""
+        prog = s.prog
+        ext_bases = [b[4:] for b in ci.bases if b.startswith("ext:")]
+        if any(b.split(".")[-1] == "NamedTuple" for b in ext_bases):
+            fields = [n for n, _, _ in ci.ann]
+            defaults = {n: d for n, _, d in ci.ann if d is not None}
+            if len(args) > len(fields):
+                raise PyRaise("TypeError", f"{clsname}() takes {len(fields)} positional arguments", s.site)
+            vals = dict(zip(fields, args))
+            for k, v in kw.items():
+                if k not in fields or k in vals:
+                    raise PyRaise("TypeError", f"{clsname}() got an unexpected / duplicate argument '{k}'", s.site)
+                vals[k] = v
+            for n in fields:
+                if n not in vals:
+                    if n not in defaults:
+                        raise PyRaise("TypeError", f"{clsname}() missing argument '{n}'", s.site)
+                    vals[n] = s.ev(defaults[n], Env(mod=ci.mod))
+            return NTuple([vals[n] for n in fields], fields, clsname)
+        r = prog.find_method(clsname, "__init__")
+        o = Obj(clsname, {})
+        o.meta["born"] = len(s.writes)
+        if r is not None:
+            s.call_fn(r[1], prog.cls(r[0]).mod, r[0], o, list(args), dict(kw))
+        elif ext_bases and not all(b in ("object", "ABC", "abc.ABC") for b in ext_bases):
+            raise Undecided(f"construction of {clsname}: its initialiser comes from a base class outside the analysed package ({ext_bases})")
+        elif args or kw:
+            raise PyRaise("TypeError", f"{clsname}() takes no arguments", s.site)
+        return o
+
     def getattr(s, o, name, node=None):
         prog = s.prog
+        if isinstance(o, NTuple):
+            if name in o._fields:
+                return o[o._fields.index(name)]
+            if name == "_fields":
+                return o._fields
+            if name == "_asdict":
+                return PyCallable(lambda: dict(zip(o._fields, o)), "_asdict")
+            if name == "_replace":
+                return PyCallable(lambda **k: NTuple([k.get(n, v) for n, v in zip(o._fields, o)], o._fields, o._cls), "_replace")
+            raise PyRaise("AttributeError", f"'{o._cls}' object has no attribute '{name}'", s.site)
         if isinstance(o, Obj):
             if name in o.f:
                 return o.f[name]
             r = prog.find_method(o.cls, name)
             if r is None:
+                cv = s.class_const(o.cls, name)
+                if cv is not None:
+                    return cv[0]
                 raise PyRaise("AttributeError", f"'{o.cls}' object has no attribute '{name}'", s.site)
             owner, fn = r
             if prog.is_property(fn):
@@ -295,6 +361,11 @@ class Interp:
         if isinstance(o, ClassRef):
             r = prog.find_method(o.name, name)
             if r is None:
+                cv = s.class_const(o.name, name)
+                if cv is not None:
+                    return cv[0]
+                if name == "__name__":
+                    return o.name
                 raise PyRaise("AttributeError", f"class {o.name} has no attribute {name}", s.site)
             return FuncRef(prog.cls(r[0]).mod, r[1], r[0])
         if isinstance(o, IdxArr):
@@ -309,7 +380,23 @@ class Interp:
             return PyCallable(getattr(o, name))
         raise Undecided(f"attribute {name} of {type(o).__name__}")
 
+    def module_global(s, mod, name):
+        """value of a module-level constant  NAME = <expr>  (evaluated once, in the scope of its module)"""
+        cache = s.flags.setdefault("_module_globals", {})
+        if (mod, name) not in cache:
+            busy = s.flags.setdefault("_module_globals_busy", set())
+            if (mod, name) in busy:
+                raise Undecided(f"recursive module-level definition of {name}")
+            busy.add((mod, name))
+            try:
+                cache[(mod, name)] = s.ev(s.prog.globals[(mod, name)], Env(mod=mod, fname="<module>"))
+            finally:
+                busy.discard((mod, name))
+        return cache[(mod, name)]
+
     def _wrap_static(s, r):
+        if r[0] == "global":
+            return s.module_global(r[1], r[2])
         if r[0] == "class":
             return ClassRef(r[1])
         if r[0] == "func":
@@ -342,6 +429,9 @@ class Interp:
                 return h(s, None, args, kw)
             return s.call_fn(f.node, f.mod, f.owner, None, args, kw)
         if isinstance(f, ClassRef):
+            ci = s.prog.cls(f.name)
+            if not ci.is_dataclass:
+                return s.construct_plain(f.name, ci, args, kw)
             if args:
                 raise PyRaise("ValueError", "Mappable dataclass constructor doesn't support positional args.", s.site)
             return s.construct(f.name, kw)
@@ -408,9 +498,13 @@ class Interp:
         env = Env(mod=mod, cls=owner, selfobj=selfobj, fname=fn.name)
         has_self = selfobj is not None and not prog.is_static(fn)
         if prog.is_classmethod(fn):
-            raise Undecided("classmethod call")
-        if has_self:
-            env.set(fn.args.args[0].arg, selfobj)
+            # the first parameter is the class: the receiver's dynamic class, or the class the method was looked up on
+            if owner is None or not (fn.args.posonlyargs + fn.args.args):
+                raise Undecided("classmethod outside a class")
+            env.set((fn.args.posonlyargs + fn.args.args)[0].arg, ClassRef(selfobj.cls if isinstance(selfobj, Obj) else owner))
+            has_self = True
+        elif has_self:
+            env.set((fn.args.posonlyargs + fn.args.args)[0].arg, selfobj)
         s._bind(fn.args, args, kw, env, Env(mod=mod, cls=owner), has_self)
         qn = f"{owner + '.' if owner else ''}{fn.name}"
         s.calls.append((mod, qn))
@@ -531,6 +625,33 @@ class Interp:
                     break
                 except LoopContinue:
                     continue
+        elif hasattr(ast, "Match") and isinstance(st, ast.Match):
+            subj = s.ev(st.subject, env)
+            if isinstance(subj, (Val, Unknown)) or not isinstance(subj, (str, int, bool, type(None), tuple)):
+                raise Undecided("match on a value that is not a static python constant")
+
+            def pat_ok(p):
+                if isinstance(p, ast.MatchValue):
+                    return s.ev(p.value, env) == subj
+                if isinstance(p, ast.MatchSingleton):
+                    return p.value is subj
+                if isinstance(p, ast.MatchOr):
+                    return any(pat_ok(q) for q in p.patterns)
+                if isinstance(p, ast.MatchAs) and p.pattern is None:
+                    if p.name is not None:
+                        env.set(p.name, subj)
+                    return True
+                raise Undecided(f"match pattern {type(p).__name__}")
+            for case in st.cases:
+                if pat_ok(case.pattern):
+                    if case.guard is not None:
+                        g = s.truth(s.ev(case.guard, env), case.guard)
+                        if g is None:
+                            raise Undecided("match guard on unknown")
+                        if not g:
+                            continue
+                    s.block(case.body, env)
+                    break
         elif isinstance(st, ast.Break):
             raise LoopBreak()
         elif isinstance(st, ast.Continue):
@@ -556,7 +677,7 @@ class Interp:
             return list(it)
         if isinstance(it, dict):
             return list(it)
-        if isinstance(it, range):
+        if isinstance(it, (range, set, frozenset, zip, type({}.items()), type({}.keys()), type({}.values()))):
             return list(it)
         if isinstance(it, (SymRange, SymList)):
             raise Undecided("python loop over a range of symbolic length (only comprehensions that are parametric in the loop variable are modelled)")
@@ -774,6 +895,8 @@ class Interp:
             return ClassRef(name)
         if (mod, name) in prog.functions:
             return FuncRef(mod, prog.functions[(mod, name)])
+        if (mod, name) in prog.globals:
+            return s.module_global(mod, name)
         a = prog.aliases.get(mod, {}).get(name)
         if a is not None:
             if a[0] == "lib":
@@ -1006,6 +1129,10 @@ class Interp:
             raise Undecided("numeric op")
         if isinstance(l, (tuple, list)) and isinstance(r, (tuple, list)) and isinstance(op, ast.Add):
             return type(l)(list(l) + list(r))
+        if isinstance(op, ast.Mult):
+            for a, b in ((l, r), (r, l)):
+                if isinstance(a, (tuple, list)) and is_num(b) and D(b).is_const() and D(b).value().denominator == 1 and not isinstance(a, NTuple):
+                    return type(a)(list(a) * int(D(b).value()))
         if isinstance(l, str) and isinstance(op, (ast.Add, ast.Mod)):
             return "<str>"
         raise Undecided(f"binary op on {type(l).__name__}, {type(r).__name__}")
